@@ -70,7 +70,7 @@ var totalSpecs = []totalSpec{
 		required: astDomain("Expr", exprExemptions()), why: "every Go expression form has a translation"},
 	{id: "translateExpr/CompositeLit", pkg: "compiler", fn: "funcContext.translateExpr", domain: "types.Type.Underlying", path: "type:*ast.CompositeLit",
 		required: req("Array", "Slice", "Map", "Struct"), why: "Go spec: composite literals construct structs, arrays, slices and maps (pointer element shorthand is rewritten before the switch)"},
-	{id: "translateExpr/AddressOf", pkg: "compiler", fn: "funcContext.translateExpr", domain: "ast.Expr", path: "e.Op:token.AND",
+	{id: "translateExpr/AddressOf", pkg: "compiler", fn: "funcContext.translateExpr", domain: "ast.Expr", path: "_.Op:token.AND",
 		required: req("CompositeLit", "Ident", "SelectorExpr", "IndexExpr", "StarExpr"), why: "Go spec: addressable operands are variables, pointer indirections, slice/array index operations, field selectors, and composite literals (parentheses are stripped)"},
 	{id: "translateExpr/UnaryOp", pkg: "compiler", fn: "funcContext.translateExpr", domain: "token.Token", path: "type:*ast.UnaryExpr", exact: true, ordinal: 1,
 		required: req("+", "-", "^", "!"), why: "Go spec unary operators on basic operands (& and <- are handled by the preceding switch, * is ast.StarExpr)"},
@@ -96,11 +96,11 @@ var totalSpecs = []totalSpec{
 		required: req("Var", "Const", "Func", "TypeName", "Nil"), why: "objects an identifier expression can denote (builtins are calls, package names and labels are not expressions)"},
 	{id: "translateExpr/NilIdent", pkg: "compiler", fn: "funcContext.translateExpr", domain: "types.Type.Underlying", path: "type:*types.Nil",
 		required: req("Basic", "Slice", "Pointer", "Chan", "Map", "Interface", "Signature"), why: "Go spec: nil is the zero value of pointers, functions, slices, maps, channels, interfaces and unsafe.Pointer"},
-	{id: "translateBuiltin/make", pkg: "compiler", fn: "funcContext.translateBuiltin", domain: "types.Type.Underlying", path: `name:"make"`,
+	{id: "translateBuiltin/make", pkg: "compiler", fn: "funcContext.translateBuiltin", domain: "types.Type.Underlying", path: `_:"make"`,
 		required: req("Slice", "Map", "Chan"), why: "Go spec: make applies to slices, maps and channels"},
-	{id: "translateBuiltin/len", pkg: "compiler", fn: "funcContext.translateBuiltin", domain: "types.Type.Underlying", path: `name:"len"`,
+	{id: "translateBuiltin/len", pkg: "compiler", fn: "funcContext.translateBuiltin", domain: "types.Type.Underlying", path: `_:"len"`,
 		required: req("Basic", "Array", "Slice", "Pointer", "Map", "Chan"), why: "Go spec: len applies to strings, arrays, pointers to arrays, slices, maps and channels; len of an array is NOT constant when the operand contains a function call or receive"},
-	{id: "translateBuiltin/cap", pkg: "compiler", fn: "funcContext.translateBuiltin", domain: "types.Type.Underlying", path: `name:"cap"`,
+	{id: "translateBuiltin/cap", pkg: "compiler", fn: "funcContext.translateBuiltin", domain: "types.Type.Underlying", path: `_:"cap"`,
 		required: req("Array", "Slice", "Chan", "Pointer"), why: "Go spec: cap applies to arrays, pointers to arrays, slices and channels; cap of an array is NOT constant when the operand contains a function call or receive"},
 	{id: "translateConversion/toString", pkg: "compiler", fn: "funcContext.translateConversion", domain: "types.Type.Underlying", path: "isString(t)",
 		required: req("Basic", "Slice"), why: "Go spec: conversions to string from integers, strings, []byte and []rune"},
